@@ -252,116 +252,7 @@ func runC08(c *Ctx) {
 	}
 
 	// ---------------------------------------------------------------------------------------------
-	c.R.Rule("float-guard", "MarshalFloatContext formats the float only on the edge where math.IsInf and math.IsNaN are both false, and the other edge returns an error; no other runtime function hands a float to the unguarded legacy formatter MarshalFloat (or to strconv.FormatFloat inside a Marshal* function) without that test", 1)
-	if fn := c.fn(pkgGraphql, "MarshalFloatContext"); fn != nil {
-		done := false
-		// the marshaler's body: the function literals of MarshalFloatContext, or a method of the package it returns as a method value
-		// (`ContextWriterFunc(floatWriter(f).writeContext)`: a bound-method wrapper that calls the method)
-		bodies := an.WithClosures(fn)
-		seenBody := map[*ssa.Function]bool{}
-		for _, b := range bodies {
-			seenBody[b] = true
-		}
-		for i := 0; i < len(bodies) && i < 16; i++ {
-			for _, blk := range bodies[i].Blocks {
-				for _, in := range blk.Instrs {
-					var callee *ssa.Function
-					switch x := in.(type) {
-					case *ssa.MakeClosure:
-						callee, _ = x.Fn.(*ssa.Function)
-					case ssa.CallInstruction:
-						callee = x.Common().StaticCallee()
-					}
-					if callee == nil || seenBody[callee] || len(callee.Blocks) == 0 {
-						continue
-					}
-					if p := pipelineFuncPkg(callee); p != pkgGraphql && p != "" {
-						continue
-					}
-					if callee.Synthetic == "" && callee.Signature.Recv() == nil && callee.Parent() == nil {
-						continue // an ordinary package function: not part of this marshaler's body
-					}
-					seenBody[callee] = true
-					bodies = append(bodies, callee)
-				}
-			}
-		}
-		for _, cl := range bodies {
-			for _, call := range an.CallsIn(cl, func(_ ssa.CallInstruction, ci an.CalleeInfo) bool {
-				return strings.HasPrefix(ci.FullName(), "fmt.Fprint")
-			}) {
-				done = true
-				inf, nan := false, false
-				for _, f := range an.Facts(call) {
-					if f.Op != token.ILLEGAL || !f.Neg {
-						continue
-					}
-					if cc, ok := f.X.(*ssa.Call); ok {
-						switch an.CalleeOf(cc).FullName() {
-						case "math.IsInf":
-							if sign, isC := an.ConstInt(cc.Call.Args[1]); isC && sign == 0 {
-								inf = true // both infinities
-							}
-						case "math.IsNaN":
-							nan = true
-						}
-					}
-				}
-				c.R.Check(inf && nan, "MarshalFloatContext/format", c.ipos(call), "guarded by !IsInf && !IsNaN", sprintf("non-finite floats reach the formatter (IsInf tested: %v, IsNaN tested: %v): Inf/NaN tokens are not JSON", inf, nan))
-			}
-		}
-		if !done {
-			c.R.Bad("MarshalFloatContext/format", c.pos(fn.Pos()), "no formatting call found")
-		}
-	}
-
-	// the unguarded legacy formatter graphql.MarshalFloat ("%g", writes NaN/+Inf/-Inf verbatim) may be used by gqlgen's own
-	// marshalers only on an edge where the value is known to be finite
-	finiteGuard := func(call ssa.Instruction, v ssa.Value) bool {
-		inf, nan := false, false
-		for _, f := range an.Facts(call) {
-			if f.Op != token.ILLEGAL || !f.Neg {
-				continue
-			}
-			if cc, ok := f.X.(*ssa.Call); ok && len(cc.Call.Args) > 0 && an.SameVar(cc.Call.Args[0], v) {
-				switch an.CalleeOf(cc).FullName() {
-				case "math.IsInf":
-					if sign, isC := an.ConstInt(cc.Call.Args[1]); isC && sign == 0 {
-						inf = true
-					}
-				case "math.IsNaN":
-					nan = true
-				}
-			}
-		}
-		return inf && nan
-	}
-	rawFloat := c.W.Func(pkgGraphql, "MarshalFloat")
-	for _, fn := range c.moduleFuncs(isRuntimePkg) {
-		if topFn(fn) == rawFloat {
-			continue
-		}
-		for _, call := range an.CallsIn(fn, func(_ ssa.CallInstruction, ci an.CalleeInfo) bool { return rawFloat != nil && ci.Static == rawFloat }) {
-			v := call.Common().Args[0]
-			c.R.Check(finiteGuard(call, v), shortFn(topFn(fn))+"→MarshalFloat", c.ipos(call), "guarded by !IsInf && !IsNaN",
-				"a float reaches the unguarded formatter graphql.MarshalFloat without a finiteness test: NaN and ±Inf are written as `NaN` / `+Inf`, which is not JSON, and no error is reported")
-		}
-		// raw formatting of a float64 inside package graphql's marshalers
-		if pipeline.FuncPkgPath(fn) != pkgGraphql || !strings.HasPrefix(strings.ToLower(topFn(fn).Name()), "marshal") || topFn(fn).Name() == "MarshalFloatContext" {
-			continue
-		}
-		for _, call := range an.CallsIn(fn, func(_ ssa.CallInstruction, ci an.CalleeInfo) bool {
-			n := ci.FullName()
-			return n == "strconv.FormatFloat" || n == "strconv.AppendFloat"
-		}) {
-			idx := 0
-			if an.CalleeOf(call).FullName() == "strconv.AppendFloat" {
-				idx = 1
-			}
-			v := call.Common().Args[idx]
-			c.R.Check(finiteGuard(call, v), shortFn(topFn(fn))+"→FormatFloat", c.ipos(call), "guarded by !IsInf && !IsNaN", "a float is formatted for output without a finiteness test: NaN and ±Inf are not JSON")
-		}
-	}
+	c08FloatGuard(c)
 
 	lossyConv(c, "C08")
 	c08TimeCodec(c)
@@ -575,4 +466,118 @@ func pipelineFuncPkg(f *ssa.Function) string {
 		return f.Pkg.Pkg.Path()
 	}
 	return ""
+}
+
+// c08FloatGuard: shared with C01 (a non-finite float must become null + error, not an invalid token).
+func c08FloatGuard(c *Ctx) {
+	c.R.Rule("float-guard", "MarshalFloatContext formats the float only on the edge where math.IsInf and math.IsNaN are both false, and the other edge returns an error; no other runtime function hands a float to the unguarded legacy formatter MarshalFloat (or to strconv.FormatFloat inside a Marshal* function) without that test", 1)
+	if fn := c.fn(pkgGraphql, "MarshalFloatContext"); fn != nil {
+		done := false
+		// the marshaler's body: the function literals of MarshalFloatContext, or a method of the package it returns as a method value
+		// (`ContextWriterFunc(floatWriter(f).writeContext)`: a bound-method wrapper that calls the method)
+		bodies := an.WithClosures(fn)
+		seenBody := map[*ssa.Function]bool{}
+		for _, b := range bodies {
+			seenBody[b] = true
+		}
+		for i := 0; i < len(bodies) && i < 16; i++ {
+			for _, blk := range bodies[i].Blocks {
+				for _, in := range blk.Instrs {
+					var callee *ssa.Function
+					switch x := in.(type) {
+					case *ssa.MakeClosure:
+						callee, _ = x.Fn.(*ssa.Function)
+					case ssa.CallInstruction:
+						callee = x.Common().StaticCallee()
+					}
+					if callee == nil || seenBody[callee] || len(callee.Blocks) == 0 {
+						continue
+					}
+					if p := pipelineFuncPkg(callee); p != pkgGraphql && p != "" {
+						continue
+					}
+					if callee.Synthetic == "" && callee.Signature.Recv() == nil && callee.Parent() == nil {
+						continue // an ordinary package function: not part of this marshaler's body
+					}
+					seenBody[callee] = true
+					bodies = append(bodies, callee)
+				}
+			}
+		}
+		for _, cl := range bodies {
+			for _, call := range an.CallsIn(cl, func(_ ssa.CallInstruction, ci an.CalleeInfo) bool {
+				return strings.HasPrefix(ci.FullName(), "fmt.Fprint")
+			}) {
+				done = true
+				inf, nan := false, false
+				for _, f := range an.Facts(call) {
+					if f.Op != token.ILLEGAL || !f.Neg {
+						continue
+					}
+					if cc, ok := f.X.(*ssa.Call); ok {
+						switch an.CalleeOf(cc).FullName() {
+						case "math.IsInf":
+							if sign, isC := an.ConstInt(cc.Call.Args[1]); isC && sign == 0 {
+								inf = true // both infinities
+							}
+						case "math.IsNaN":
+							nan = true
+						}
+					}
+				}
+				c.R.Check(inf && nan, "MarshalFloatContext/format", c.ipos(call), "guarded by !IsInf && !IsNaN", sprintf("non-finite floats reach the formatter (IsInf tested: %v, IsNaN tested: %v): Inf/NaN tokens are not JSON", inf, nan))
+			}
+		}
+		if !done {
+			c.R.Bad("MarshalFloatContext/format", c.pos(fn.Pos()), "no formatting call found")
+		}
+	}
+
+	// the unguarded legacy formatter graphql.MarshalFloat ("%g", writes NaN/+Inf/-Inf verbatim) may be used by gqlgen's own
+	// marshalers only on an edge where the value is known to be finite
+	finiteGuard := func(call ssa.Instruction, v ssa.Value) bool {
+		inf, nan := false, false
+		for _, f := range an.Facts(call) {
+			if f.Op != token.ILLEGAL || !f.Neg {
+				continue
+			}
+			if cc, ok := f.X.(*ssa.Call); ok && len(cc.Call.Args) > 0 && an.SameVar(cc.Call.Args[0], v) {
+				switch an.CalleeOf(cc).FullName() {
+				case "math.IsInf":
+					if sign, isC := an.ConstInt(cc.Call.Args[1]); isC && sign == 0 {
+						inf = true
+					}
+				case "math.IsNaN":
+					nan = true
+				}
+			}
+		}
+		return inf && nan
+	}
+	rawFloat := c.W.Func(pkgGraphql, "MarshalFloat")
+	for _, fn := range c.moduleFuncs(isRuntimePkg) {
+		if topFn(fn) == rawFloat {
+			continue
+		}
+		for _, call := range an.CallsIn(fn, func(_ ssa.CallInstruction, ci an.CalleeInfo) bool { return rawFloat != nil && ci.Static == rawFloat }) {
+			v := call.Common().Args[0]
+			c.R.Check(finiteGuard(call, v), shortFn(topFn(fn))+"→MarshalFloat", c.ipos(call), "guarded by !IsInf && !IsNaN",
+				"a float reaches the unguarded formatter graphql.MarshalFloat without a finiteness test: NaN and ±Inf are written as `NaN` / `+Inf`, which is not JSON, and no error is reported")
+		}
+		// raw formatting of a float64 inside package graphql's marshalers
+		if pipeline.FuncPkgPath(fn) != pkgGraphql || !strings.HasPrefix(strings.ToLower(topFn(fn).Name()), "marshal") || topFn(fn).Name() == "MarshalFloatContext" {
+			continue
+		}
+		for _, call := range an.CallsIn(fn, func(_ ssa.CallInstruction, ci an.CalleeInfo) bool {
+			n := ci.FullName()
+			return n == "strconv.FormatFloat" || n == "strconv.AppendFloat"
+		}) {
+			idx := 0
+			if an.CalleeOf(call).FullName() == "strconv.AppendFloat" {
+				idx = 1
+			}
+			v := call.Common().Args[idx]
+			c.R.Check(finiteGuard(call, v), shortFn(topFn(fn))+"→FormatFloat", c.ipos(call), "guarded by !IsInf && !IsNaN", "a float is formatted for output without a finiteness test: NaN and ±Inf are not JSON")
+		}
+	}
 }
